@@ -486,5 +486,7 @@ def check(rep, tier):
     helper_obligations(rep)
     main_obligations(rep, tier)
     shape_obligations(rep)
+    from vlib import fetchdep
+    fetchdep.obligations(rep, tier, 'C15')          # the partition / window / range fetches are built by get_integration_select_step
     rep.notes.append('Fetch predicates proved equivalent to the specification for every grid case over a symbolic row.')
     rep.bounded_rule = 'grid of 9 operators x 0..2 group columns x 0..n partition filters x model side (exhaustive over the grid; rows/bounds symbolic)'
